@@ -8,11 +8,20 @@
    [restored g g'] = id counters, start ids, every just_once row reachable by nickname or by
    table name with every field (value and type tag), nickname-to-table bindings, today,
    inter-table references and the rebuilt forward-reference slots agree.
-   The YAML text layer is a pair of functions with PyYAML's round-trip law as the only
-   hypothesis (visible in the statements below as `forall text yaml_dump yaml_load, (...) ->`). *)
+   The YAML text layer: (a) abstractly, a pair of functions with the round-trip law as the only
+   hypothesis (C05_file_read_write, C05_file_rewrite_same); (b) as a model (theories/YamlScalar.v,
+   Section YamlModel of Continuation.v): representer, the serializer's `implicit` pair computed with
+   the resolver, the emitter's choice of style and of writing the tag, the parser / composer tag
+   resolution and the constructors for str / int / bool / null.  There the law is a THEOREM
+   (C05_yaml_roundtrip_from_syntax) from two narrower laws: [syntax_law] (the character level gives
+   back structure, texts, plain-ness and explicit tags) and [codec_law] (printing and parsing of
+   float / date / datetime / Decimal invert each other); every type-related clause of the property
+   ("strings that look like numbers or keywords stay strings; ints of any size ... keep their type")
+   is proved for EVERY resolver (C05_scalar_keeps_tag, C05_string_stays_string, C05_int_of_any_size).
+   Inter-table references while a run continues: [record_deps] (OrderedSet.add), C05_deps_*. *)
 From Coq Require Import ZArith List Bool String.
 From SFV Require Import Base Continuation.
-From SFV.P Require Import ContinuationP.
+From SFV.P Require Import YamlScalarP ContinuationP.
 Import ListNotations. Open Scope string_scope.
 
 (* Full statement of the property at tree level:
@@ -70,25 +79,180 @@ Theorem C05_dump_spec :
 Proof. exact dump_check_spec. Qed.
 Print Assumptions C05_dump_spec.
 
-(* ---- the same through the text of the file, assuming PyYAML's round-trip law ---- *)
+(* ---- the same through the text of the file, assuming the round-trip law of the text layer ---- *)
 Theorem C05_file_read_write :
-  forall (text : Type) (yaml_dump : tree -> text) (yaml_load : text -> option tree),
+  forall (text : Type) (yaml_dump : tree -> option text) (yaml_load : text -> option tree),
     (forall t, representable (sort_tree t) = true ->
-               yaml_load (yaml_dump (sort_tree t)) = Some (sort_tree t)) ->
+               exists txt, yaml_dump (sort_tree t) = Some txt /\ yaml_load txt = Some (sort_tree t)) ->
     forall g, snapshot_ok g = true ->
       exists txt g', write_file text yaml_dump g = Ok txt /\
                      read_file text yaml_load txt = Ok g' /\ restored g g'.
-Proof. exact read_write. Qed.
+Proof. exact read_write_all. Qed.
 Print Assumptions C05_file_read_write.
 
 Theorem C05_file_rewrite_same :
-  forall (text : Type) (yaml_dump : tree -> text) (yaml_load : text -> option tree),
+  forall (text : Type) (yaml_dump : tree -> option text) (yaml_load : text -> option tree),
     (forall t, representable (sort_tree t) = true ->
-               yaml_load (yaml_dump (sort_tree t)) = Some (sort_tree t)) ->
+               exists txt, yaml_dump (sort_tree t) = Some txt /\ yaml_load txt = Some (sort_tree t)) ->
     forall n g txt, nodup_deps (g_deps g) = true -> write_file text yaml_dump g = Ok txt ->
                     rewrite_chain text yaml_dump yaml_load n txt = Ok txt.
-Proof. exact rewrite_chain_same. Qed.
+Proof. exact rewrite_chain_same_all. Qed.
 Print Assumptions C05_file_rewrite_same.
+
+(* ---- the text layer as a model: which type a scalar has after the round trip ---- *)
+(* Whatever the implicit resolver, the default tag, the emitter's analysis of the text and the
+   context are: the composer gives every scalar the tag (and text) the representer gave it. *)
+Theorem C05_scalar_keeps_tag :
+  forall (resolve : string -> ytag) (default_tag : ytag) (analyze : string -> analysis)
+         (simple_key flow : bool) (n : snode),
+    compose_scalar resolve default_tag (emit_scalar resolve default_tag analyze simple_key flow n) = n.
+Proof. exact compose_emit. Qed.
+Print Assumptions C05_scalar_keeps_tag.
+
+(* ... in particular a str stays a str, whatever its text looks like to the resolver *)
+Theorem C05_string_stays_string :
+  forall (resolve : string -> ytag) (default_tag : ytag) (analyze : string -> analysis)
+         (simple_key flow : bool) (s : string),
+    composed_tag resolve default_tag
+                 (emit_scalar resolve default_tag analyze simple_key flow (mkSN TgStr s)) = TgStr.
+Proof. intros. exact (composed_tag_emit resolve default_tag analyze simple_key flow (mkSN TgStr s)). Qed.
+Print Assumptions C05_string_stays_string.
+
+(* the mechanism: a scalar is written plain only if the loader's resolver would give its text the
+   node's own tag; the same holds for any style handed in from outside (an observed file) *)
+Theorem C05_plain_only_if_resolved :
+  forall (resolve : string -> ytag) (default_tag : ytag) (analyze : string -> analysis)
+         (simple_key flow : bool) (n : snode),
+    ps_plain (emit_scalar resolve default_tag analyze simple_key flow n) = true ->
+    resolve (sn_text n) = sn_tag n.
+Proof. exact plain_only_if_resolved. Qed.
+Print Assumptions C05_plain_only_if_resolved.
+
+Theorem C05_observed_style_keeps_tag :
+  forall (resolve : string -> ytag) (default_tag : ytag) (plain : bool) (n : snode) (p : pscalar),
+    emit_scalar_as resolve default_tag plain n = Some p -> compose_scalar resolve default_tag p = n.
+Proof. exact compose_emit_as. Qed.
+Print Assumptions C05_observed_style_keeps_tag.
+
+(* the regular-expression matcher the resolver model runs on decides the usual meaning of a regular
+   expression: the eight patterns of YamlScalar.v mean what they say *)
+Theorem C05_regex_matcher_correct : forall r s, re_match r s = true <-> lang r s.
+Proof. exact re_match_lang. Qed.
+Print Assumptions C05_regex_matcher_correct.
+
+(* ints of any size: str(n) read back by construct_yaml_int is n *)
+Theorem C05_int_of_any_size : forall z, construct_int (int_text z) = Some z.
+Proof. exact construct_int_text. Qed.
+Print Assumptions C05_int_of_any_size.
+
+(* ... and the resolver (PyYAML's eight patterns as modelled) recognises str(n) as an int whatever the
+   size of n: no pattern filed before `int` matches it, the third alternative of `int` does *)
+Theorem C05_int_text_recognised : forall z, resolve_plain (int_text z) = TgInt.
+Proof. exact int_text_resolves. Qed.
+Print Assumptions C05_int_text_recognised.
+
+(* the same for whole documents, mapping keys included *)
+Theorem C05_tree_keeps_tags :
+  forall (resolve : string -> ytag) (default_tag : ytag) (analyze : string -> analysis)
+         (simple_key : string -> bool) (n : ntree),
+    compose resolve default_tag (present resolve default_tag analyze simple_key n) = n.
+Proof. exact compose_present. Qed.
+Print Assumptions C05_tree_keeps_tags.
+
+(* the round-trip law of the text layer, derived from the two narrower laws *)
+Theorem C05_yaml_roundtrip_from_syntax :
+  forall float_text date_text datetime_text float_read timestamp_read decimal_read token_ok,
+    codec_law float_text date_text datetime_text float_read timestamp_read decimal_read token_ok ->
+    forall resolve default_tag analyze simple_key text emit_chars scan_chars,
+      syntax_law resolve default_tag analyze simple_key text emit_chars scan_chars ->
+      forall t, representable t = true -> tokens_ok token_ok t = true ->
+        exists txt,
+          yaml_dump_m float_text date_text datetime_text resolve default_tag analyze simple_key
+                      text emit_chars t = Some txt /\
+          yaml_load_m float_read timestamp_read decimal_read resolve default_tag text scan_chars txt
+          = Some t.
+Proof. exact yaml_roundtrip_m. Qed.
+Print Assumptions C05_yaml_roundtrip_from_syntax.
+
+(* writing raises RepresenterError exactly for the values without a representer *)
+Theorem C05_model_dump_fails :
+  forall float_text date_text datetime_text resolve default_tag analyze simple_key text emit_chars t,
+    representable t = false ->
+    yaml_dump_m float_text date_text datetime_text resolve default_tag analyze simple_key
+                text emit_chars t = None.
+Proof. exact yaml_dump_m_fails. Qed.
+Print Assumptions C05_model_dump_fails.
+
+(* the two file-level theorems over the modelled text layer *)
+Theorem C05_file_read_write_model :
+  forall float_text date_text datetime_text float_read timestamp_read decimal_read token_ok,
+    codec_law float_text date_text datetime_text float_read timestamp_read decimal_read token_ok ->
+    forall resolve default_tag analyze simple_key text emit_chars scan_chars,
+      syntax_law resolve default_tag analyze simple_key text emit_chars scan_chars ->
+      forall g, snapshot_ok g = true -> tokens_ok token_ok (save g) = true ->
+        exists txt g',
+          write_file text (yaml_dump_m float_text date_text datetime_text resolve default_tag analyze
+                                       simple_key text emit_chars) g = Ok txt /\
+          read_file text (yaml_load_m float_read timestamp_read decimal_read resolve default_tag
+                                      text scan_chars) txt = Ok g' /\
+          restored g g'.
+Proof. exact read_write_m. Qed.
+Print Assumptions C05_file_read_write_model.
+
+Theorem C05_file_rewrite_same_model :
+  forall float_text date_text datetime_text float_read timestamp_read decimal_read token_ok,
+    codec_law float_text date_text datetime_text float_read timestamp_read decimal_read token_ok ->
+    forall resolve default_tag analyze simple_key text emit_chars scan_chars,
+      syntax_law resolve default_tag analyze simple_key text emit_chars scan_chars ->
+      forall n g txt, nodup_deps (g_deps g) = true -> tokens_ok token_ok (save g) = true ->
+        write_file text (yaml_dump_m float_text date_text datetime_text resolve default_tag analyze
+                                     simple_key text emit_chars) g = Ok txt ->
+        rewrite_chain text
+                      (yaml_dump_m float_text date_text datetime_text resolve default_tag analyze
+                                   simple_key text emit_chars)
+                      (yaml_load_m float_read timestamp_read decimal_read resolve default_tag
+                                   text scan_chars) n txt = Ok txt.
+Proof. exact rewrite_chain_same_m. Qed.
+Print Assumptions C05_file_rewrite_same_model.
+
+(* ---- inter-table references while a run continues (OrderedSet.add for every reference met) ---- *)
+(* what was recorded so far stays in front, in its order *)
+Theorem C05_deps_prefix :
+  forall news l, exists tail, record_deps l news = (l ++ tail)%list.
+Proof. exact record_prefix. Qed.
+Print Assumptions C05_deps_prefix.
+
+(* a run that meets only known references leaves the list (hence the file) unchanged *)
+Theorem C05_deps_unchanged_when_known :
+  forall news l, (forall d, In d news -> In d l) -> record_deps l news = l.
+Proof. exact record_known. Qed.
+Print Assumptions C05_deps_unchanged_when_known.
+
+(* exactly the old and the newly met references are recorded, each once *)
+Theorem C05_deps_complete : forall news l d, In d news -> In d (record_deps l news).
+Proof. exact record_complete. Qed.
+Print Assumptions C05_deps_complete.
+
+Theorem C05_deps_sound : forall news l d, In d (record_deps l news) -> In d l \/ In d news.
+Proof. exact record_sound. Qed.
+Print Assumptions C05_deps_sound.
+
+Theorem C05_deps_stay_a_set :
+  forall news l, nodup_deps l = true -> nodup_deps (record_deps l news) = true.
+Proof. exact record_nodup. Qed.
+Print Assumptions C05_deps_stay_a_set.
+
+(* a continued run starts from the references of the file: they stay in front whatever it generates,
+   they are the whole list if it meets nothing new, and the (table, field) -> target table lookups
+   that the CCI mapping is written from are those of the run that wrote the file *)
+Theorem C05_deps_after_load :
+  forall g g' news,
+    nodup_deps (g_deps g) = true -> load (save g) = Ok g' ->
+    (exists tail, continue_deps g' news = (g_deps g ++ tail)%list) /\
+    ((forall d, In d news -> In d (g_deps g)) -> continue_deps g' news = g_deps g) /\
+    (forall from field, lookup_target (g_deps g') from field = lookup_target (g_deps g) from field).
+Proof. exact continue_after_load. Qed.
+Print Assumptions C05_deps_after_load.
 
 (* a continued run starts from exactly the loaded state, whatever the recipe's templates say *)
 Theorem C05_resume_uses_file :
@@ -183,3 +347,51 @@ Example C05_ex_k1_partial :
   | Err _ => False
   end.
 Proof. vm_compute. split; reflexivity. Qed.
+
+(* ---- non-vacuity of the scalar layer: PyYAML's resolver as modelled, on YAML-hostile texts ---- *)
+Example C05_ex_resolver :
+  map resolve_plain ["0012"; "12"; "-7"; "0x1F"; "1_000"; "190:20:30"; "1e5"; "1.0e+5"; ".inf"; "-.INF"; ".NaN";
+                     "yes"; "NO"; "y"; "null"; "~"; ""; "Null "; "2020-02-29"; "2020-2-29"; "2001-1-1 5:00:00 +5";
+                     "<<"; "="; "!"; "a: b"; bs [49; 50; 10]; bs [239; 188; 145]]
+  = [TgInt; TgInt; TgInt; TgInt; TgInt; TgInt; TgStr; TgFloat; TgFloat; TgFloat; TgFloat;
+     TgBool; TgBool; TgStr; TgNull; TgNull; TgNull; TgStr; TgTimestamp; TgStr; TgTimestamp;
+     TgMerge; TgValue; TgYaml; TgStr; TgInt; TgStr].
+Proof. vm_compute. reflexivity. Qed.
+
+Definition ex_an : string -> analysis := fun _ => mkAn false false true true true.
+
+(* the str "12" must not be written plain; the int 12 is; both come back with their own tag *)
+Example C05_ex_string_that_looks_like_int :
+  emit_scalar resolve_plain TgStr ex_an false false (mkSN TgStr "12") = mkPS None false "12" /\
+  emit_scalar resolve_plain TgStr ex_an false false (mkSN TgInt "12") = mkPS None true "12" /\
+  emit_scalar resolve_plain TgStr ex_an false false (mkSN TgInt "abc") = mkPS (Some TgInt) false "abc" /\
+  emit_scalar resolve_plain TgStr ex_an false false (mkSN decimal_tag "1.50") = mkPS (Some decimal_tag) false "1.50" /\
+  composed_tag resolve_plain TgStr (mkPS None false "12") = TgStr /\
+  composed_tag resolve_plain TgStr (mkPS None true "12") = TgInt.
+Proof. vm_compute. repeat split; reflexivity. Qed.
+
+Example C05_ex_int_texts :
+  map int_text [0; 7; -7; 2 ^ 64; - 10 ^ 30] =
+  ["0"; "7"; "-7"; "18446744073709551616"; "-1000000000000000000000000000000"] /\
+  map construct_int ["18446744073709551616"; "-7"; "1_000"; "0x1F"; "1:30"; ""] =
+  [Some (2 ^ 64); Some (-7); Some 1000; None; None; None].
+Proof. vm_compute. split; reflexivity. Qed.
+
+(* one field of one table referring to two tables (Task.WhoId -> Contact | Lead): both entries are
+   restored, in order; the lookup of the CCI mapping is the last one; a continued run that meets
+   them again and one new reference appends only the new one *)
+Definition ex_poly : globals :=
+  mkGlobals [("Task", 2)] [] [] [] [("Task", "Task")] (VDate 738945)
+            [mkDep "Task" "Contact" "WhoId"; mkDep "Task" "Lead" "WhoId"; mkDep "Attachment" "Task" "ParentId"]
+            (mkTr [("Task", "Task")] [("Task", 2)]) [].
+
+Example C05_ex_polymorphic_lookup :
+  match load (save ex_poly) with
+  | Ok g' => g_deps g' = g_deps ex_poly /\
+             lookup_target (g_deps g') "Task" "WhoId" = Some "Lead" /\
+             continue_deps g' [mkDep "Task" "Lead" "WhoId"; mkDep "Note" "Task" "ParentId";
+                               mkDep "Task" "Contact" "WhoId"]
+             = (g_deps ex_poly ++ [mkDep "Note" "Task" "ParentId"])%list
+  | Err _ => False
+  end.
+Proof. vm_compute. repeat split; reflexivity. Qed.
